@@ -32,7 +32,7 @@ type Geom struct {
 type Profile struct {
 	Metric     string `json:"metric"`      // cosine | euclidean  (firewall, knowledge base and pre-created cache index)
 	CacheIndex string `json:"cache_index"` // auto (created by the gateway on first save) | pre (created by the operator, text language english)
-	IDStyle    string `json:"id_style"`    // simple (doc_1) | path (kb/guide.md_0): ids of the knowledge-base chunks
+	IDStyle    string `json:"id_style"`    // nested (doc_1, doc_10, xdoc_1: one id is a proper prefix / suffix of the others) | simple (doc_1..3) | path (kb/guide.md_0)
 	FwEmpty    string `json:"fw_empty"`    // missing | empty : how "no forbidden prompt stored" is realised
 	Variant    int    `json:"variant"`     // seed of the refinement choices (body shape, case, decoration)
 	Geom       *Geom  `json:"geom"`        // class tables printed by TLC for the self check
@@ -47,7 +47,7 @@ func (p *Profile) defaults() {
 		p.CacheIndex = "auto"
 	}
 	if p.IDStyle == "" {
-		p.IDStyle = "simple"
+		p.IDStyle = "nested"
 	}
 	if p.FwEmpty == "" {
 		p.FwEmpty = "empty"
@@ -84,7 +84,7 @@ var allDocs = []string{"d1", "d2", "d3"}
 var angle = map[string]float64{"F0": 0, "F1": 30, "A": 90, "A1": 100, "A2": 120, "B": 180, "d1": 88, "d2": 112, "d3": 180}
 
 // euclidean profile: the specification's own coordinates / 100 on the line y = 1
-var coord = map[string]float64{"F0": 0, "F1": 0.4, "T": -0.5, "A": 10, "A1": 10.22, "A2": 10.44, "B": -10, "d1": 10.08, "d2": 10.36, "d3": -10}
+var coord = map[string]float64{"F0": 0, "F1": 0.4, "T": -0.5, "A": 10, "A1": 10.2, "A2": 10.44, "B": -10, "d1": 10.08, "d2": 10.34, "d3": -10}
 
 func hasPosition(metric, pos string) bool {
 	if metric == "cosine" {
@@ -179,6 +179,9 @@ func (e *stubEmbedder) EmbedBatch(texts []string) ([][]float32, error) {
 func docID(style, d string) string {
 	if style == "path" {
 		return map[string]string{"d1": "kb/guide.md_0", "d2": "kb/guide.md_1", "d3": "kb/faq.md_0"}[d]
+	}
+	if style == "nested" {
+		return map[string]string{"d1": "doc_1", "d2": "doc_10", "d3": "xdoc_1"}[d]
 	}
 	return map[string]string{"d1": "doc_1", "d2": "doc_2", "d3": "doc_3"}[d]
 }
